@@ -18,17 +18,18 @@ import (
 
 // Cfg steers shape generation.
 type Cfg struct {
-	TagKey           string
-	MaxDepth         int
-	Conf             bool   // lib/conf: camelCase keys with initial-case variants, no optional=dep, lower-case map keys
-	NoEnv            bool   // no env= options (race run: env is process state)
-	AllStrings       bool   // WithStringValues unmarshallers (path/form/header): leaf fields only, every document value is a string
-	EnvPrefix        string // unique prefix for env var names of this shape
-	NoDep            bool   // no optional=dep
-	NoUntagged       bool   // no untagged / foreign-tagged fields
-	NoStringOnString bool   // no ,string on string-kind fields (encoding/json renders those differently)
-	nkey             int
-	nenv             int
+	TagKey            string
+	MaxDepth          int
+	Conf              bool   // lib/conf: camelCase keys with initial-case variants, no optional=dep, lower-case map keys
+	NoEnv             bool   // no env= options (race run: env is process state)
+	AllStrings        bool   // WithStringValues unmarshallers (path/form/header): leaf fields only, every document value is a string
+	EnvPrefix         string // unique prefix for env var names of this shape
+	NoDep             bool   // no optional=dep
+	NoDurationOptions bool   // no options= on Duration fields (a Duration travels through encoding/json as integer nanoseconds)
+	NoUntagged        bool   // no untagged / foreign-tagged fields
+	NoStringOnString  bool   // no ,string on string-kind fields (encoding/json renders those differently)
+	nkey              int
+	nenv              int
 }
 
 var keyWords = []string{"a", "b", "id", "name", "port", "host", "size", "max", "ttl", "mode", "tags", "rate", "x", "cfg", "item"}
@@ -256,7 +257,7 @@ func (c *Cfg) leafOpts(r *rand.Rand, k Kind, isPtr bool, sibOptional []string) (
 	case x < 54:
 		o.HasDefault = true
 	case x < 64:
-		if k != Bool {
+		if k != Bool && !(c.NoDurationOptions && k == Duration) {
 			o.Options = randOptions(r, k)
 			switch r.Intn(3) {
 			case 0:
@@ -662,7 +663,7 @@ func (c *Case) genStructDocE(r *rand.Rand, t *Type, dst reflect.Value, doc map[s
 		case f.O.Dep != "":
 			on = present[f.O.Dep]
 		case f.O.Optional:
-			on = r.Intn(2) == 0 || (c.Shape.ConstrainedPresent && (f.O.Range != nil || len(f.O.Options) > 0))
+			on = r.Intn(2) == 0 || (c.Shape.ConstrainedPresent && (f.O.Range != nil || len(f.O.Options) > 0 || f.T.K == Struct))
 		case f.O.HasDefault:
 			// inside an optional embedded struct the library wants all-or-nothing of the non-optional fields
 			on = optEmb || r.Intn(5) < 2
